@@ -137,11 +137,15 @@ def check_c16(tier, replay=None):
         vals = [val2json(v) for v in st['stack'][0]['items']] if accept else None
         cases.append({'op': 'bdecode', 'input': hexin})
         metas.append((hexin, accept, vals, st, 0))
-        if dead and rng.random() < (0.25 if tier == 'quick' else 0.05):
-            # a dead prefix must stay rejected whatever follows
-            ext = ''.join('%02x' % ord(rng.choice(MC_ALPHABET)) for _ in range(rng.randint(1, 4)))
-            cases.append({'op': 'bdecode', 'input': hexin + ext})
-            metas.append((hexin + ext, False, None, st, 1))
+        if dead:
+            # a dead prefix must stay rejected whatever follows: every one-symbol extension (the decoder may
+            # only notice the defect at a later delimiter), and some longer random ones
+            exts = ['%02x' % ord(c) for c in MC_ALPHABET] if (tier == 'quick' or len(st['inp']) < maxlen) else []
+            if rng.random() < 0.25:
+                exts.append(''.join('%02x' % ord(rng.choice(MC_ALPHABET)) for _ in range(rng.randint(2, 4))))
+            for ext in exts:
+                cases.append({'op': 'bdecode', 'input': hexin + ext})
+                metas.append((hexin + ext, False, None, st, 1))
     os.remove(dump)
     obs = run_mbt(cases)
     agree = 0
@@ -218,7 +222,8 @@ def sample_docs(rng, n):
                                                                  b'peer id': bytes(rng.randrange(256) for _ in range(20))}
                                                                 for _ in range(rng.randrange(3))]}
         else:
-            doc = [rng.randrange(-5, 5), [b'', b'ab', {b'k': []}], {b'a': {b'b': -1}}]
+            doc = [rng.choice([0, -1, 2 ** 63 - 1, -2 ** 63, -2 ** 63 + 1, 10 ** 18, rng.randrange(-5, 5)]),
+                   [b'', b'ab', {b'k': []}], {b'a': {b'b': -1}}]
         data = bytearray(benc(doc))
         for _ in range(rng.choice([0, 0, 1, 1, 2, 3])):
             op = rng.randrange(5)
@@ -308,8 +313,9 @@ def rand_tree(rng, depth):
         return bytes(rng.choice(b':e0123456789ild-a\x00\xff\x80 ') for _ in range(rng.choice([0, 1, 1, 2, 3, 11])))
     if k == 2:
         return [rand_tree(rng, depth - 1) for _ in range(rng.randrange(4))]
-    return {bytes(rng.choice(b'ab\x00\xff:e1') for _ in range(rng.randrange(4))): rand_tree(rng, depth - 1)
-            for _ in range(rng.randrange(4))}
+    pool = [b'', b'a', b'ab', b'\xff', b'\xf0\x90\x80\x80', b'\x80', b'\xc3\xa9', b'\xef\xbf\xbd', b'z', b'\x00', b'1:a', b'e']
+    return {(rng.choice(pool) if rng.random() < 0.7 else bytes(rng.choice(b'ab\x00\xff:e1') for _ in range(rng.randrange(4)))): rand_tree(rng, depth - 1)
+            for _ in range(rng.randrange(5))}
 
 
 def py2json(v):
